@@ -22,7 +22,6 @@ import regen  # noqa: E402
 
 warnings.filterwarnings('ignore')
 
-DRIVER_TARGETS = ['CopVerif.Driver.All']
 
 
 def all_modules():
@@ -152,10 +151,15 @@ def run_check(prop, tier, seed, replay=None):
         ctx.ob('audit:forbidden-tokens', not other, 'audit', '; '.join(other[:5]))
     # 4. tie: driver
     lean = None
-    dok, dbroken, _, dout = vc.lake_build(DRIVER_TARGETS)
-    if dok:
+    dtargets = getattr(mod, 'DRIVER_TARGETS', [])
+    dok, dbroken = True, []
+    if dtargets:
+        dok, dbroken, _, dout = vc.lake_build(dtargets)
+    if not dtargets:
+        pass
+    elif dok:
         try:
-            lean = vc.LeanDriver()
+            lean = vc.LeanDriver(mod.DRIVER_MAIN)
         except Exception as e:
             ctx.ob('driver:start', False, 'tie', str(e))
     else:
